@@ -54,14 +54,20 @@ def check(ctx):
     for r in rows[:-1]:
         ctx.violation(f"real code disagrees with Policy.tla on {describe(r['case'])}: {r['why']}",
                       {"engine": "policy-replay", "cell": r["case"], "why": r["why"]})
-    # constructors, in a child with a ceiling on address space and wall time
+    if ctx.violations:
+        # the shared check itself disagrees with the policy: the constructors cannot be judged separately
+        ctx.cov["evaluations"] = summary["configs"] + summary["flag_sets"]
+        ctx.cov["distinct_nontrivial"] = len(lines)
+        return core.finish(ctx)
+    # constructors, in a child with a ceiling on address space and wall time (rejections return at once:
+    # the whole grid takes seconds; a constructor that starts building an invalid config runs into the ceiling)
     prog = ctx.workdir / "policy_ctors.ndjson"
     t = time.time()
     cmd = f"ulimit -v 12000000; exec {core.VH} policy-ctors {inp} {prog}"
     died = None
     try:
         p = subprocess.run(["bash", "-c", cmd], cwd=core.ROOT, stdout=subprocess.PIPE, stderr=subprocess.PIPE,
-                           text=True, timeout=600 if ctx.quick else 1800)
+                           text=True, timeout=300 if ctx.quick else 600)
         if p.returncode != 0:
             died = f"child exited with status {p.returncode}"
     except subprocess.TimeoutExpired:
